@@ -132,6 +132,19 @@ def decoratorToks (t : PrecTable) (ds : List Expr) : List Tok :=
 def withItemToks (t : PrecTable) (w : WithItem) : List Tok :=
   tExpr t w.contextExpr ++ (match w.optionalVars with | some v => .kw "as" :: tExpr t v | none => [])
 
+def isNonEmptyTuple : Expr â†’ Bool
+  | .tuple (_ :: _) => true
+  | _ => false
+
+/-- `visit_With` items: a sole tuple item without `as` gets a second pair of parentheses (otherwise
+    `with (a, b):` would be read back as two items). -/
+def withItemsToks (t : PrecTable) (items : List WithItem) : List Tok :=
+  match items with
+  | [w] =>
+    if w.optionalVars.isNone && isNonEmptyTuple w.contextExpr then .delim "(" :: withItemToks t w ++ [.delim ")"]
+    else withItemToks t w
+  | _ => commaSep (items.map (withItemToks t))
+
 def isCompound (st : StmtTable) (s : Stmt) : Bool := st.compound.contains (stmtClass s)
 
 /-- `_suite`: block layout (`enter_block` â€¦ `leave_block`) when some statement is compound, else the
@@ -179,7 +192,7 @@ def stmtToks (t : PrecTable) (st : StmtTable) : Stmt â†’ List Tok
   | .if_ c body orelse =>
     .newline :: .kw "if" :: tExpr t c ++ .delim ":" :: suiteWrap (body.any (isCompound st)) (bodyToks t st body) ++ elseToks t st orelse
   | .with_ isAsync items body =>
-    .newline :: (if isAsync then [.kw "async"] else []) ++ .kw "with" :: commaSep (items.map (withItemToks t)) ++
+    .newline :: (if isAsync then [.kw "async"] else []) ++ .kw "with" :: withItemsToks t items ++
       .delim ":" :: suiteWrap (body.any (isCompound st)) (bodyToks t st body)
   | .match_ subj cases => .newline :: .kw "match" :: tExpr t subj ++ .delim ":" :: suiteWrap (st.compound.contains "match_case" || cases.isEmpty) (casesToks t st cases)
   | .raise_ exc cause =>
@@ -218,7 +231,7 @@ def handlersToks (t : PrecTable) (st : StmtTable) (star : Bool) : List Handler â
 def casesToks (t : PrecTable) (st : StmtTable) : List MatchCase â†’ List Tok
   | [] => []
   | .mk pat guard body :: cs =>
-    .kw "case" :: casePatToks t pat ++ (match guard with | some g => .kw "if" :: tVisit t g | none => []) ++
+    .kw "case" :: casePatToks t pat ++ (match guard with | some g => .kw "if" :: tExpr t g | none => []) ++
       .delim ":" :: suiteWrap (body.any (isCompound st)) (bodyToks t st body) ++ casesToks t st cs
 end
 
